@@ -583,7 +583,7 @@ func (p *forRangeStmt) RangeAssignThen(cb *CodeBuilder, pos token.Pos) {
 
 func (p *forRangeStmt) getKeyValTypes(cb *CodeBuilder, typ types.Type) []types.Type {
 retry:
-	switch t := typ.(type) {
+	switch t := types.Unalias(typ).(type) {
 	case *types.Slice:
 		return []types.Type{types.Typ[types.Int], t.Elem()}
 	case *types.Map:
